@@ -43,9 +43,18 @@ def run_op(p, e, op, stash=None, meta=True, shared=None):
     kind = op[0]
     try:
         if kind == 'parse':
-            r = p.parse(W.as_input(e, op[1]), start=op[2])
+            try:
+                r = p.parse(W.as_input(e, op[1]), start=op[2])
+            except LarkError as ex:
+                if stash is not None and len(stash.setdefault('raw_exc', [])) < 4:
+                    c0 = canon_error(ex)
+                    c0.pop('accepts', None)
+                    stash['raw_exc'].append((ex, c0, op))   # an exception handed out earlier must keep saying what it said
+                raise
             c = canon(r, meta)
-            if stash is not None and len(stash.setdefault('raw', [])) < 6:
+            if len(op) > 3 and op[3] == 'mutate':
+                _vandalise(r)                           # the caller edits the result in place, as Transformer_InPlace users do: nobody else's result may change
+            elif stash is not None and len(stash.setdefault('raw', [])) < 6:
                 stash['raw'].append((r, c, op))         # re-examined after all later operations: a returned tree must not change
             return {'ok': c}
         if kind == 'parse_keep':
@@ -188,6 +197,36 @@ def run_op(p, e, op, stash=None, meta=True, shared=None):
     except _PY_ERRORS as ex:
         return _err(ex)
     raise AssertionError('unknown op %r' % (op,))
+
+
+def _vandalise(r):
+    """destructively edit a result the way a user legitimately may: children lists, node names, meta and token attributes"""
+    seen = set()
+    todo = [r]
+    while todo:
+        t = todo.pop()
+        if id(t) in seen:
+            continue
+        seen.add(id(t))
+        if type(t).__name__ == 'Tree':
+            todo.extend(t.children)
+            try:
+                t.children.append('VANDAL')
+                t.data = 'vandalised'
+                m = t.meta
+                m.line = m.column = m.start_pos = m.end_pos = -7
+                m.empty = False
+            except (AttributeError, TypeError):
+                pass
+        elif type(t).__name__ == 'Token':
+            try:
+                t.type = 'VANDAL'
+                t.line = t.column = t.start_pos = t.end_pos = -7
+            except (AttributeError, TypeError):
+                pass
+        elif isinstance(t, list):
+            todo.extend(t)
+            t.append('VANDAL')
 
 
 def _unpickle(buf):
